@@ -18,6 +18,15 @@ type poison struct{ why string }
 
 func isPoison(x value) bool { _, ok := x.(poison); return ok }
 
+func poisonOf(xs ...value) poison {
+	for _, x := range xs {
+		if p, ok := x.(poison); ok {
+			return p
+		}
+	}
+	return poison{}
+}
+
 // truth resolves a (possibly symbolic) boolean, forking if needed.
 func (i *interpreter) truth(c value) bool {
 	switch c := c.(type) {
